@@ -40,7 +40,7 @@ PROPS = {
         assumptions=['eviction order is observed through the order in which the evicted keys are dropped'],
     ),
     'C04': dict(
-        comps=[('res', LOOKUPS), 'keyset', 'mon_c04', 'api_map'],
+        comps=[('res', LOOKUPS), 'keyset', 'mon_c04', 'api_map'], directed=['c04_alias_prefix'],
         theorems=['C04_nodup', 'C04_outputs', 'C04_insert_returns_old', 'C04_step'],
         assumptions=['hashbrown finds an entry iff present under any hash function when the same hash is presented as at insertion (its contract; exercised with 5 hashers incl. constant, and Borrow<KeyId> lookups)',
                      'after every step every key of the universe is looked up through contains/peek/peek_entry in borrowed and owned form and compared with the pointer walk (flag api_map)'],
@@ -85,7 +85,7 @@ PROPS = {
         theorems=['C12_split', 'C12_fused', 'C12_iter', 'C12_drain', 'C12_into_iter', 'C12_cursor', 'C12_taking', 'C12_taking_items'],
     ),
     'C13': dict(
-        corr_only=['cap'],
+        corr_only=['cap'], directed=['c13_shrink_raises'],
         comps=['cap', 'clone_cap', 'mon_c13', 'growth'] + [(c, CAPOPS) for c in ('res', 'keyset', 'order', 'ents', 'sizes', 'cur', 'max', 'drops')],
         theorems=['C13_transparent', 'C13_reserve', 'C13_try_reserve_fail', 'C13_shrink', 'C13_shrink_to_fit', 'C13_with_capacity_step', 'C13_auto_growth', 'C13_growth_bounded', 'C13_monitor_growth_insert', 'C13_monitor_growth_try_insert'],
         assumptions=['Layer T is a demonic abstraction of hashbrown: tombstone creation/reuse is an oracle resolved from the observed capacity; every observed (len, capacity, buckets) transition must be one the model allows',
@@ -104,6 +104,7 @@ PROPS = {
         theorems=['C15_retain'],
     ),
     'C16': dict(
+        directed=['c16_hash_panic_in_realloc'],
         corr_only=['panic_state', 'panic_bsim', 'panic_drops', 'calls_size', 'calls_hash', 'calls_closure'],
         comps=['panic_state', 'panic_bsim', 'panic_drops', 'panic_ri', 'panic_acc', 'panic_nodup', 'panic_bound', 'panic_lost', 'panic_ledger', 'panic_order', 'calls_size', 'calls_hash', 'calls_closure'] +
               [(c, None, 'panic') for c in ('drop_once', 'mon_c07', 'api_map', 'api_len', 'api_order', 'mon_c04', 'addr_stable')],
